@@ -70,6 +70,8 @@ func main() {
 	switch os.Args[1] {
 	case "nodediff":
 		runNodeDiff(os.Args[2], seed, tier)
+	case "secretdiff":
+		runSecretDiff(os.Args[2], seed, tier)
 	case "reinitdiff":
 		runReinitDiff(os.Args[2], seed, tier)
 	case "scheddiff":
